@@ -41,6 +41,14 @@ def check(prog, run):
                 if len(c.args) == 1 and not any(k.arg == "default" for k in c.keywords):
                     a = c.args[0]
                     nonempty = isinstance(a, (ast.List, ast.Tuple, ast.Set)) and len(a.elts) > 0
+                    if isinstance(a, ast.Name):
+                        # max(v) inside the true branch of `if v:` / `if len(v):` / `if len(v) > 0:` is guarded
+                        cur, child = getattr(c, "_parent", None), c
+                        while cur is not None and not isinstance(cur, (ast.FunctionDef, ast.AsyncFunctionDef, ast.Lambda)):
+                            if isinstance(cur, ast.If) and any(child is st or any(child is x for x in ast.walk(st)) for st in cur.body) \
+                                    and " ".join(ast.unparse(cur.test).split()) in (a.id, "len(%s)" % a.id, "len(%s) > 0" % a.id, "%s != []" % a.id):
+                                nonempty = True
+                            cur = getattr(cur, "_parent", None)
                     if not nonempty:
                         run.report(r, "%s:%s:%s(single iterable, no default)" % (f.module.name, f.qualname, c.func.id),
                                    f.where(c), "%s() over a possibly empty iterable without default= raises ValueError "
